@@ -1028,6 +1028,7 @@ func (g *Graph) boolFlags() []types.Object {
 		}
 		seen[o] = true
 		out = append(out, o)
+
 		if g.flagIdent == nil {
 			g.flagIdent = map[types.Object]*ast.Ident{}
 		}
@@ -1098,6 +1099,13 @@ func (g *Graph) boolFlags() []types.Object {
 	var flags []types.Object
 	for _, o := range out {
 		if constAssigned[o] {
+			flags = append(flags, o)
+		}
+	}
+	// then the ones that are only ever assigned expressions, more than once (`c := a; if !c { c = b }`): their value is
+	// the formula assigned last
+	for _, o := range out {
+		if !constAssigned[o] && len(f.assignmentsTo(o)) > 1 {
 			flags = append(flags, o)
 		}
 	}
@@ -1383,6 +1391,9 @@ func (g *Graph) boolFlags() []types.Object {
 			g.flagIdent = map[types.Object]*ast.Ident{}
 		}
 		g.flagIdent[o] = eqIdent[o]
+	}
+	if os.Getenv("MLB_DEBUG_FLAGS") != "" {
+		fmt.Fprintln(os.Stderr, "flags of", f.Name(), out)
 	}
 	g.flags = &out
 	return out
@@ -2214,6 +2225,19 @@ type IterationEnd struct {
 	ga    *guardAnalysis
 }
 
+// LeavingEdge is the CFG edge through which the iteration ends this way.
+func (e IterationEnd) LeavingEdge() (Edge, bool) {
+	if e.From == nil || e.to == nil {
+		return Edge{}, false
+	}
+	for k, s := range e.From.Succs {
+		if s == e.to {
+			return Edge{e.From, k}, true
+		}
+	}
+	return Edge{}, false
+}
+
 // Reaches reports whether the site can be reached after the iteration ended this way: the assignments possible at
 // the end are propagated forward (outside the loop body the ordinary transfer applies); false means that every path
 // from this end leaves the function, or fails a condition, before the site.
@@ -2262,6 +2286,64 @@ func (e IterationEnd) ReachesWithin(site Site, outerHead *cfg.Block) bool {
 	}
 	_, ok := in[site.B]
 	return ok && !bsEmpty(ga.stateAt(in, site.B, site.I))
+}
+
+// EstablishedBefore continues the analysis from this end of the iteration (with what is known there) and reports whether
+// the guard holds on every feasible path by the time the block `limit` is entered or the function is left: an early exit
+// of a search loop whose result is acted upon right behind the loop.
+func (e IterationEnd) EstablishedBefore(limit *cfg.Block) bool {
+	if e.ga == nil || e.to == nil {
+		return false
+	}
+	ga := e.ga
+	if e.to == limit {
+		return bsSubset(e.st, ga.holds)
+	}
+	in := map[*cfg.Block][]uint64{}
+	cp := make([]uint64, len(e.st))
+	copy(cp, e.st)
+	in[e.to] = cp
+	work := []*cfg.Block{e.to}
+	ok := true
+	for len(work) > 0 && ok {
+		b := work[len(work)-1]
+		work = work[:len(work)-1]
+		s := in[b]
+		for _, n := range b.Nodes {
+			s = ga.transferNode(n, s)
+		}
+		if len(b.Succs) == 0 {
+			if k := ga.g.exitKind(b); (k == ExitReturn || k == ExitFall) && !bsSubset(s, ga.holds) {
+				ok = false
+			}
+			continue
+		}
+		for k, nb := range b.Succs {
+			t := s
+			if al := ga.edgeAllowed(Edge{b, k}); al != nil {
+				t = bsIntersect(s, al)
+			}
+			if bsEmpty(t) {
+				continue
+			}
+			if nb == limit {
+				if !bsSubset(t, ga.holds) {
+					ok = false
+				}
+				continue
+			}
+			cur, has := in[nb]
+			if !has {
+				c2 := make([]uint64, len(t))
+				copy(c2, t)
+				in[nb] = c2
+				work = append(work, nb)
+			} else if bsUnion(cur, t) {
+				work = append(work, nb)
+			}
+		}
+	}
+	return ok
 }
 
 // LoopIteration analyses one iteration of the range loop in isolation: nothing
@@ -2731,3 +2813,19 @@ func BlockOutside(b *cfg.Block, region ast.Node) bool {
 
 // flagBudget bounds the number of guard leaves plus tracked flags of one analysis (the state space is 2^n).
 const flagBudget = 12
+
+// assignmentsTo lists the assignment statements (and := definitions) whose left side names the variable.
+func (f *Fn) assignmentsTo(o types.Object) []*ast.AssignStmt {
+	var out []*ast.AssignStmt
+	ast.Inspect(f.Body, func(n ast.Node) bool {
+		if as, ok := n.(*ast.AssignStmt); ok {
+			for _, l := range as.Lhs {
+				if id, isId := l.(*ast.Ident); isId && f.ObjOf(id) == o {
+					out = append(out, as)
+				}
+			}
+		}
+		return true
+	})
+	return out
+}
